@@ -46,7 +46,9 @@ pub trait Cv<S: Dom>: Copy + Debug {
     fn aabb(self) -> Option<(P3<S>, P3<S>)>;
     fn eval(self, t: S) -> P3<S>;
     fn search_steps(self, p: P3<S>, steps: u16, eps: S) -> (S, P3<S>);
-    fn search(self, p: P3<S>, coarse: Vec<(S, P3<S>)>, h: S, eps: S) -> (S, P3<S>);
+    /// `shape` is the kind of iterator the coarse pairs arrive in: 0 = exact size hint (a mapped Vec), 1 = filtered
+    /// (size hint (0, Some(n))), 2 = `iter::from_fn` (size hint (0, None)), 3 = reversed order (exact)
+    fn search(self, p: P3<S>, coarse: Vec<(S, P3<S>)>, h: S, eps: S, shape: usize) -> (S, P3<S>);
     fn length(self, steps: u16) -> S;
 }
 
@@ -127,8 +129,14 @@ macro_rules! impl_cv {
                 let (t, q) = self.binary_search_point_by_steps($to(&p), steps, eps);
                 (t, $from(q))
             }
-            fn search(self, p: P3<S>, coarse: Vec<(S, P3<S>)>, h: S, eps: S) -> (S, P3<S>) {
-                let (t, q) = self.binary_search_point($to(&p), coarse.into_iter().map(|(t, q)| (t, $to(&q))), h, eps);
+            fn search(self, p: P3<S>, coarse: Vec<(S, P3<S>)>, h: S, eps: S, shape: usize) -> (S, P3<S>) {
+                let it = coarse.into_iter().map(|(t, q)| (t, $to(&q)));
+                let (t, q) = match shape {
+                    1 => self.binary_search_point($to(&p), it.filter(|_| true), h, eps),
+                    2 => { let mut it = it; self.binary_search_point($to(&p), std::iter::from_fn(move || it.next()), h, eps) }
+                    3 => self.binary_search_point($to(&p), it.rev(), h, eps),
+                    _ => self.binary_search_point($to(&p), it, h, eps),
+                };
                 (t, $from(q))
             }
             fn length(self, steps: u16) -> S {
